@@ -1,6 +1,6 @@
 // C07 chan_xv: RingChannel / FlexRingChannel: consumers (photon threads) blocked in recv() must be notified by send();
 // producers blocked on a full ring must be notified by recv(). Controlled multi-vCPU scheduler.
-// ops: r recv   s send (PhotonPause on a vCPU, ThreadPause on a plain '@' OS thread)
+// ops: r recv   s send (PhotonPause on a vCPU, ThreadPause on a plain '@' OS thread)   Z sleep 150 ms (lets the 100 ms timed re-check of a blocked peer fire once, legitimately)
 // Oracle: values conserved + per-producer order per consumer; NO 100 ms timed re-check may ever be needed: virtual time only
 // advances when nothing can run, so reaching +100 ms before the program is done means everybody slept on an available item/slot.
 #define protected public
@@ -17,10 +17,18 @@ typedef common::RingChannel<LockfreeMPMCRingQueue<int, 2>> ChanM;
 typedef common::RingChannel<LockfreeBatchMPMCRingQueue<int, 2>> ChanB;
 typedef common::FlexRingChannel<FlexLockfreeMPMCRingQueue<int>> ChanF;
 
-struct St { mvprog::Prog prog; std::vector<int> sent, got[16]; std::string log; char kind; ChanM* cm = nullptr; ChanB* cb = nullptr; ChanF* cf = nullptr; };
+struct St { mvprog::Prog prog; std::vector<int> sent, got[16]; std::string log; char kind; bool has_sleep = false; uint64_t last_pop = 0, last_push = 0; ChanM* cm = nullptr; ChanB* cb = nullptr; ChanF* cf = nullptr; };
 static St* G;
 
+// with 'Z' ops the absolute rule does not apply; the relative one does: an operation that began waiting before the last pop (for a send)
+// or push (for a recv) must not complete 50 ms or more after it -- time only moves when nobody can run
+static void too_late_rel(const char* what, int me, uint64_t t_start, uint64_t last_peer_op) {
+    if (last_peer_op && t_start < last_peer_op && mv_now() >= last_peer_op + 50000)
+        pmc_violation("timed-recheck-needed", "%s by thread %d began at +%llu us, its peer made room / an element available at +%llu us, but it completed only at +%llu us (woken by the 100 ms timed re-check, not by a notification)",
+                      what, me, (unsigned long long)(t_start - MV_T0), (unsigned long long)(last_peer_op - MV_T0), (unsigned long long)(mv_now() - MV_T0));
+}
 static void too_late(const char* what, int me) {
+    if (G->has_sleep) return;
     if (mv_now() - MV_T0 >= 100000)
         pmc_violation("timed-recheck-needed", "%s by thread %d completed only after the 100 ms periodic re-check fired (virtual time +%llu us): every thread was asleep while an element / a free slot was available",
                       what, me, (unsigned long long)(mv_now() - MV_T0));
@@ -29,15 +37,17 @@ static void too_late(const char* what, int me) {
 static void body(mvprog::PT& p) {
     int me = p.idx, seq = 0;
     for (char op : p.ops) {
+        if (op == 'Z') { thread_usleep(150 * 1000); continue; }
+        uint64_t t_start = mv_now();
         if (op == 's') {
             int v = me * 100 + seq++;
             if (p.plain_os) { if (G->kind == 'M') G->cm->send<ThreadPause>(v); else if (G->kind == 'B') G->cb->send<ThreadPause>(v); else G->cf->send<ThreadPause>(v); }
             else            { if (G->kind == 'M') G->cm->send<PhotonPause>(v); else if (G->kind == 'B') G->cb->send<PhotonPause>(v); else G->cf->send<PhotonPause>(v); }
-            G->sent.push_back(v); too_late("send", me);
+            G->sent.push_back(v); too_late("send", me); too_late_rel("send", me, t_start, G->last_pop); G->last_push = mv_now();
             G->log += char('a' + me); G->log += 's';
         } else if (op == 'r') {
             int v = G->kind == 'M' ? G->cm->recv() : G->kind == 'B' ? G->cb->recv() : G->cf->recv();
-            G->got[me].push_back(v); too_late("recv", me);
+            G->got[me].push_back(v); too_late("recv", me); too_late_rel("recv", me, t_start, G->last_push); G->last_pop = mv_now();
             G->log += char('a' + me); G->log += 'r';
         } else if (op == 'y') thread_yield();
     }
@@ -50,6 +60,7 @@ void pmc_run(const char* config) {
     St st; G = &st; st.kind = config[0];
     { std::string pr(config + 2); size_t c = pr.find(':'); if (c != std::string::npos) pr.resize(c); st.prog.parse(pr.c_str()); }
     bool tso = strstr(config, ":tso") != nullptr;
+    st.has_sleep = strchr(config, 'Z') != nullptr;
     // yield_turn 0 / yield_usec 0: go straight to the semaphore wait (the busy-yield phase only delays the interesting part)
     if (st.kind == 'M') st.cm = new ChanM(0, 0); else if (st.kind == 'B') st.cb = new ChanB(0, 0); else st.cf = ChanF::create(2, 0, 0);
     pmc_window(0);
@@ -82,6 +93,10 @@ static const PmcConfig CFG[] = {
     {"M:r,r|s|@s",  3, {1,2}, {0,0}, {0,0}, {0,0}, "two consumers, two producers"},
     {"M:rrr|sss",   3, {1,2}, {0,0}, {0,0}, {0,0}, "burst larger than the ring: blocked producer must be notified"},
     {"M:yrrr|sss",  2, {1,2}, {0,0}, {0,0}, {0,0}, ""},
+    {"M:sss,Zrrr",  3, {0,0}, {0,0}, {0,0}, {0,0}, "a producer stays blocked on the full ring through one whole 100 ms timed wait; the pops that follow must still notify it"},
+    {"M:sss|Zrrr",  3, {1,1}, {0,0}, {0,0}, {0,0}, ""},
+    {"M:Zsss|rrr",  3, {1,1}, {0,0}, {0,0}, {0,0}, "same for a consumer that waited through a timed re-check"},
+    {"F:ssss,Zrrrr",2, {0,0}, {0,0}, {0,0}, {0,0}, ""},
     {"B:r|s",       3, {2,3}, {0,0}, {0,0}, {0,0}, "batch ring"},
     {"B:r,r|ss",    3, {1,2}, {0,0}, {0,0}, {0,0}, ""},
     {"M:r|s:tso",   3, {2,2}, {0,0}, {1,2}, {3,3}, "the Dekker window under x86-TSO: the seq_cst fence in send() and the seq_cst RMW in recv() must close it"},
